@@ -162,3 +162,13 @@ Proof.
   intros b g H. unfold build in H. destruct (acyclic_b (resolve b)) eqn:E; [|discriminate].
   inversion H; subst. split; [reflexivity|]. apply acyclic_sound, E.
 Qed.
+
+(* a boolean test of a proposed rank, for concrete examples *)
+Definition ranked_b (g : graph) (rank : name -> nat) : bool :=
+  forallb (fun nn => forallb (fun s => Nat.ltb (rank s) (rank (fst nn))) (sources (snd nn))) g.
+Lemma ranked_b_sound g rank : ranked_b g rank = true -> ranked g rank.
+Proof.
+  unfold ranked_b. rewrite forallb_forall. intros H n ps body src Hl Hin.
+  apply lookup_in in Hl. specialize (H _ Hl). simpl in H. rewrite forallb_forall in H.
+  apply Nat.ltb_lt. apply H. exact Hin.
+Qed.
